@@ -277,6 +277,9 @@ def allOK : Nat → W → Bool
   | n + 1, w => w.t.refOK ["cali-a", "cali-b", "cali-c"] && smallOps.all (fun o => allOK n (w.stepOp o).1)
 
 #guard smallOps.length == 27
+/- the check is not vacuous: a phantom reference (what the pre-e60ddc3 order left behind) is rejected -/
+#guard !({ exLeak with refc := exLeak.refc.set "cali-fw-x" 1 } : T).refOK ["cali-a", "cali-b", "cali-c", "cali-d", "cali-fw-x"]
+#guard exLeak.refOK ["cali-a", "cali-b", "cali-c", "cali-d", "cali-fw-x"]
 #guard allOK 4 { t := T.new exP true, K := [] }
 
 end CalicoVerif.C15
